@@ -2274,6 +2274,14 @@ package bloomsearch
 //@ safety
 //@ modifies heap(BloomFilters), heap(bloom.BloomFilter), heap(bitset.BitSet), heap(uint64)
 //@ ensures result1 == nil ==> result0 != nil
+// C01 / C24 (a decoded filter lands in the slot its presence bit names — a token
+// filter read into the field slot would make pruning drop blocks that hold
+// matching rows): on success each of the three filters is present exactly when
+// its flag bit (bit 0 field, bit 1 token, bit 2 field:token of the section's
+// leading byte) is set.
+//@ ensures [C01,C24] result1 == nil ==> ((result0.FieldBloomFilter != nil) <==> (section[0] % 2 == 1))
+//@ ensures [C01,C24] result1 == nil ==> ((result0.TokenBloomFilter != nil) <==> ((section[0] / 2) % 2 == 1))
+//@ ensures [C01,C24] result1 == nil ==> ((result0.FieldTokenBloomFilter != nil) <==> ((section[0] / 4) % 2 == 1))
 
 // The closure that reads one length-prefixed filter: the remainder slice shrinks
 // and never goes out of bounds.
@@ -2281,6 +2289,7 @@ package bloomsearch
 //@ props C19
 //@ safety
 //@ modifies rest, heap(bloom.BloomFilter), heap(bitset.BitSet), heap(uint64)
+//@ ensures [C01,C24] result1 == nil ==> result0 != nil
 
 //@ func fileMetadataFromBytesWithHash
 //@ props C19
